@@ -23,7 +23,7 @@ def fresh_wt():
     os.makedirs(S, exist_ok=True)
     if not os.path.isdir(WT):
         sh(['git', '-C', '/repo', 'worktree', 'add', '--detach', WT, 'HEAD'])
-    sh('git checkout -- . ; git clean -fdq ; git checkout -q --detach $(git -C /repo rev-parse HEAD) && git checkout -- . && git clean -fdq', cwd=WT)
+    sh('git reset -q --hard ; git clean -fdq ; git checkout -q --detach $(git -C /repo rev-parse HEAD) && git reset -q --hard && git clean -fdq', cwd=WT)
 
 
 def stable_ok():
@@ -61,6 +61,8 @@ def confirm(seed):
     rc, out = sh(['git', 'apply', os.path.join(seed, 'patch.diff')], cwd=WT)
     if rc != 0:
         rc, out = sh(['git', 'apply', '--3way', os.path.join(seed, 'patch.diff')], cwd=WT)
+        if rc != 0:
+            sh('git reset -q --hard', cwd=WT)
     res['apply'] = rc
     rcb, outb = sh("go build ./pkg/... && go build -ldflags=-checklinkname=0 ./cmd/... && go test -vet=off -count=1 -run '^$' ./... 2>&1 | grep -v 'build failed\\|no test files\\|^ok' | head -5", cwd=WT)
     res['build'] = rcb
@@ -91,6 +93,7 @@ def detect(seed, props):
     if rc != 0:
         rc, out = sh(['git', 'apply', '--3way', os.path.join(seed, 'patch.diff')], cwd=WT)
     if rc != 0:
+        sh('git reset -q --hard', cwd=WT)
         print('patch does not apply', out)
         return
     sync_verif()
